@@ -9,14 +9,14 @@ ROOT = os.path.dirname(os.path.dirname(os.path.realpath(__file__)))
 # id -> (technique, level text, level note, design ref)
 TABLE = {
     "C01": (
-        "generated grammars x exhaustive short contexts x both back-ends; oracle = Bar-Hillel product with the prefix DFA in the Boolean model (viability decided exactly); metamorphic rule order / renaming / hash seed",
-        "Both directions of the mask (nothing missing, nothing extra) on hundreds to thousands of small grammars incl. empty language, nullable/unary cycles, both back-ends, 16 hash seeds. Bounded exploration, not a proof.",
-        "Trusted: vf.cfgref (self-tested against brute-force derivation enumeration and closed forms). Bounds: <=4 nonterminals, <=8 rules, contexts <=3 (4 thorough).",
+        "generated grammars (four families: random, shared left corners, left-corner cycles, CNF-shaped; up to 4 terminals) x exhaustive short contexts x both back-ends, queried shortest-first and again longest-first on the same object; oracle = Bar-Hillel product with the prefix DFA in the Boolean model (viability decided exactly); metamorphic rule order / renaming / hash seed",
+        "Both directions of the mask (nothing missing, nothing extra) on 2400 (quick) small grammars incl. empty language, nullable/unary cycles, indirect left recursion, both back-ends, two query orders, 16 hash seeds. Bounded exploration, not a proof.",
+        "Trusted: vf.cfgref (self-tested against brute-force derivation enumeration and closed forms). Bounds: <=4 nonterminals (5 thorough), <=8 rules (10), <=4 terminals, contexts <=3 (2 with 4 terminals; 4 thorough).",
     ),
     "C02": (
-        "generated grammars x exhaustive short strings; differential against a definitional inside-weight reference in exact (Boolean, tropical, free polynomial, rational) and float models; metamorphic rule order / renaming / agenda tie-break salt / hash seed",
+        "generated grammars (four families; terminals as strings, ints incl. 0, sparse ints, tuples; signed rational weights) x exhaustive short strings; differential against a definitional inside-weight reference in exact (Boolean, tropical, free polynomial, rational) and float models; metamorphic rule order / renaming / agenda tie-break salt / hash seed",
         "Every parser against an independent derivation-sum reference on all strings up to length 3-4; in the free semiring equality of derivation multisets. Exploration with exact oracles, not a proof.",
-        "Trusted: vf.cfgref.Inside (self-tested vs brute force). Float regimes use rtol 1e-8 + atol 1e-10.",
+        "Trusted: vf.cfgref.Inside (self-tested vs brute force). Float regimes use rtol 1e-8 + atol 1e-10. Bounds: <=4 nonterminals (5 thorough), <=8 rules (10), strings <=3 (4).",
     ),
     "C03": (
         "generated grammars x exhaustive short prefixes; oracle = Bar-Hillel product with the deterministic automaton of p.V* then least fixed point; exact on finite languages (free / rational semirings)",
@@ -25,16 +25,16 @@ TABLE = {
     ),
     "C04": (
         "generated convergent grammars x three LM back-ends x contexts; oracle = conditionals from reference prefix/inside/total weights; long contexts (600-1500 tokens) against exact Fraction forward vectors of a generated automaton; tie-break salts, hash seeds",
-        "Normalisation, proportionality to prefix weights, chain rule, back-end agreement, un-normalised weights = parser weights, zero on non-viable contexts, rescaled parser far below 1e-300. Exploration.",
+        "Normalisation, proportionality to prefix weights, chain rule, back-end agreement, un-normalised weights = parser weights, zero on non-viable contexts, rescaled parser far below 1e-300, plain parser while the prefix weight is still representable (subnormal window 1e-315..1e-309). Exploration.",
         "Trusted: vf.cfgref; Fractions for long contexts. rtol 1e-8 (1e-6 long).",
     ),
     "C05": (
-        "stateful (Hypothesis RuleBasedStateMachine): histories of p_next / call / chart / clear_cache / grammar transformations / cold long contexts on one object, model = fresh object per query; invariant after every step",
-        "History independence and purity over generated query histories (siblings, prefixes, repeats, clears, cold 500+-token contexts under the default recursion limit) for 8 object kinds. Exploration of histories up to 20-30 steps.",
+        "stateful (Hypothesis RuleBasedStateMachine): histories of p_next / call / chart / clear_cache / grammar transformations / cold long contexts / one sweep over all short contexts (incl. complete sentences ending in EOS) in a drawn order, on one object; model = fresh object per query; invariant after every step",
+        "History independence and purity over ~8000 (quick) generated query histories (siblings, prefixes, repeats, clears, EOS inside contexts, cold 500+-token contexts under the default recursion limit) for 8 object kinds, on random, shared-left-corner and left-corner-cycle grammars. Exploration of histories up to 20-30 rule applications.",
         "The model is the library on a fresh object (that is the property); value correctness is C01-C04.",
     ),
     "C06": (
-        "generated grammars x every transformation/option x unfold at every site x chains of two; oracle = reference parser on both sides (transformed grammar read as data); exact regimes incl. free polynomial semiring",
+        "generated grammars (four families, non-string terminals, signed weights) x every transformation/option x unfold at every site x four chains of two; oracle = reference parser on both sides (transformed grammar read as data), library evaluator T(cfg)(xs) as a secondary observation; exact regimes incl. free polynomial semiring",
         "Weighted-language preservation of all 17 transformation variants on all strings up to length 3; polynomial identity in the free semiring. Exploration.",
         "Trusted: vf.cfgref.Inside on both sides.",
     ),
@@ -45,7 +45,7 @@ TABLE = {
     ),
     "C08": (
         "generated convergent / idempotent / non-recursive grammars; oracle = Kleene iteration of the full polynomial system in the model semiring; finite languages vs the sum of string weights; expectation pairs",
-        "agenda, naive_bottom_up, treesum, expected_length against an independent least-fixed-point computation for every nonterminal, rule rotations and 16 hash seeds (pop orders). Exploration.",
+        "agenda, naive_bottom_up, treesum, expected_length against an independent least-fixed-point computation for every nonterminal, rule rotations and 16 hash seeds (pop orders), also after warm-up calls on the same object (trim, cnf, loose-tolerance runs). Exploration.",
         "Convergence by construction; rtol 1e-8.",
     ),
     "C09": (
@@ -55,32 +55,32 @@ TABLE = {
     ),
     "C10": (
         "generated transducer pairs; oracle = Hadamard product of the two epsilon-free cross-sections (bijection with matching path pairs); composed machine read as data and evaluated by the reference lattice recursion",
-        "Composition (both association branches), evaluation, cross-sections, transpose, projections, from_string / diag / from_pairs against relational semantics. Exploration.",
+        "Composition in both operand orders on the same two objects (both association branches), before or after the objects were evaluated; evaluation, cross-sections, transpose, projections, from_string / diag / from_pairs against relational semantics. Exploration.",
         "Trusted: vf.autoref.rel / compose_ref (self-tested vs path enumeration).",
     ),
     "C11": (
         "generated automata x exhaustive short strings; oracle = alpha E* M_x1 E* ... beta as dense matrices over exact model semirings; acyclic cases also brute-force path enumeration",
-        "String weights, epsilon removal (read as data) and total weight against matrix path sums incl. epsilon cycles. Exploration.",
+        "String weights, epsilon removal (read as data) and total weight against matrix path sums incl. epsilon cycles; symbols as strings, ints incl. 0, tuples; signed weights; both construction APIs (add_* / set_*). Exploration.",
         "Trusted: vf.autoref (Gaussian elimination over Q / power sums).",
     ),
     "C12": (
         "generated expression trees of rational operations; oracle = denotational evaluator over truncated weighted languages (sum, Cauchy product, star as least solution); constructed automaton read as data and via the library evaluator",
-        "Union, concatenation, star, plus, reversal, zero/one, lift, from_string(s), rename, renumber on operands with epsilon arcs and initial-is-final states, nested to depth 3. Exploration.",
+        "Union, concatenation, star, plus, reversal, zero/one, lift, from_string(s), rename, renumber on operands with epsilon arcs and initial-is-final states, nested to depth 3; operations applied twice to the same operand objects, operands evaluated before use, and every operand re-checked afterwards. Exploration.",
         "Star only where the series converges (generator scales operands).",
     ),
     "C13": (
-        "generated acyclic / deterministic automata over Q; oracle = exact equivalence over Q for all strings at once (Tzeng) + structural predicates + deterministic call budget for termination",
+        "generated acyclic / deterministic automata over Q (all operations) and arbitrary cyclic automata with epsilon cycles and self-loops (push / trim / trim_vals); symbols incl. ints and tuples; oracle = exact equivalence over Q for all strings at once (Tzeng) + structural predicates + deterministic call budget for termination",
         "determinize, min_det, push, trim, trim_vals: language equality decided exactly for all strings, determinism, stochasticity after pushing, liveness after trimming. Exploration of inputs; each comparison is exact.",
         "Termination only claimed where it is a theorem.",
     ),
     "C14": (
-        "generated real-weighted automata and pairs equivalent by construction or perturbed; ground truth = exact equivalence and Hankel rank over Q; call budget for termination",
-        "counterexample None <=> equivalent, returned witnesses are real, ==/hash, min terminates, is equivalent and has exactly Hankel-rank many states. Exploration.",
+        "generated real-weighted automata (signed weights, diagonal-symbol family) and pairs equivalent by construction, perturbed, or differing in alphabet; both argument orders; ground truth = exact equivalence and Hankel rank over Q; call budget for termination",
+        "counterexample None <=> equivalent (both orders), returned witnesses are real, ==/hash, min (of the automaton and of its transformed copy) terminates, is equivalent and has exactly Hankel-rank many states. Exploration.",
         "Well-conditioned = dyadic weights, measured singular-value gap (discards counted).",
     ),
     "C15": (
         "generated weighted digraphs; oracle = Gauss-Jordan (I-A)^-1 over Q / power sums; harness-computed SCCs and edge order",
-        "closure_scc_based, closure_reference, closure, solve_left/right, blocks, buckets on graphs with nested cycles, several components, isolated nodes. Exploration, exact comparisons.",
+        "closure_scc_based, closure_reference, closure, solve_left/right, blocks, buckets on graphs with nested cycles, several components, isolated nodes, signed weights with cancelling parallel edges. Exploration, exact comparisons.",
         "Row sums <= 3/4 in Q.",
     ),
     "C16": (
@@ -90,13 +90,13 @@ TABLE = {
     ),
     "C17": (
         "generated automata over 1-4-byte alphabets with colliding state names, merged conversions, multi-character-terminal grammars; oracle = matrix path sums + UTF-8 decoding; results read as data",
-        "to_cfg left/right, to_bytes, to_bytes().to_cfg, CFG.to_bytes, merged byte grammars on encodings, truncations and byte mutations. Exploration.",
+        "to_cfg left/right, to_bytes, to_bytes().to_cfg, CFG.to_bytes, merged byte grammars on encodings, truncations and byte mutations; alphabets include NUL (byte value 0). Exploration.",
         "Caller-chosen state names are disjoint across merged automata (as lark_interface guarantees).",
     ),
     "C18": (
-        "generated regex ASTs x character sets x exhaustive short strings + sampled matches and mutations; oracle = Python re.fullmatch; normalisation on the automaton read as data",
-        "Language equality with re on all strings up to length 2-3 over the character set and per-state normalisation. Exploration.",
-        "Trusted: Python re (cross-checked by an AST matcher); ASCII class escapes as documented by interegular.",
+        "generated regex ASTs (incl. match-nothing classes) x character sets x exhaustive short strings + sampled matches and mutations; oracle = Python re.fullmatch, plus an exact product-automaton comparison (strings of every length) of the result with interegular's own automaton; normalisation on the automaton read as data",
+        "Language equality with re on all strings up to length 2-3 over the character set, exact support equality with the expression's automaton for all lengths, and per-state normalisation. Exploration of expressions; each exact comparison covers all strings.",
+        "Trusted: Python re (cross-checked by an AST matcher); ASCII class escapes as documented by interegular; cases where interegular's own automaton disagrees with re are counted and not judged (third-party).",
     ),
     "C19": (
         "generated Lark grammars printed from a harness AST x candidate texts / byte strings; oracle = reference matcher implementing the substitution semantics with Python re",
@@ -104,7 +104,7 @@ TABLE = {
         "Grammars Lark rejects are discarded; acceptance only.",
     ),
     "C20": (
-        "generated convergent grammars; oracle = reference total / inside on the input and on the returned grammars read as data",
+        "generated convergent grammars (dominated, suite-style and PCFG-style weights whose per-head sums are exactly one); oracle = reference total / inside on the input and on the returned grammars read as data",
         "Per-head sums, total one, proportional string weights, EOS wrapping on all strings over V+EOS up to length 4. Exploration.",
         "rtol 1e-8.",
     ),
